@@ -1,4 +1,90 @@
-use crate::ops::RunDesc;
+//! EBR-CHURN: participants registering and exiting while others defer, flush and advance with
+//! small bags — the registry is traversed (and deleted entries unlinked, which itself defers)
+//! inside `try_advance` while bags overflow.
+
+use crate::gen::{swarm_cfg, Profile};
+use crate::json::J;
+use crate::ops::*;
+use crate::rng::Rng;
+
 pub fn gen_churn(prop: &str, seed: u64) -> RunDesc {
-    crate::gen::gen_interp_run(prop, "ebr-churn", seed, crate::gen::Profile::Ebr)
+    let mut rng = Rng::new(seed);
+    let mut cfg = RunCfg::default();
+    let nlong = 1 + rng.below(3) as usize;
+    let nshort = 1 + rng.below(4) as usize;
+    swarm_cfg(&mut rng, &mut cfg, nlong + nshort, true);
+    cfg.max_objects = *rng.pick(&[2u32, 2, 3, 4, 8]);
+    cfg.manual_interval = *rng.pick(&[1u32, 2, 3, 5, 8, 64]);
+    cfg.roots = 1;
+    cfg.wroots = 1;
+    let mut threads = Vec::new();
+    let shape = |rng: &mut Rng| rng.below(crate::closures::NSHAPES as u64) as u32;
+    for _ in 0..nlong {
+        let mut ops = Vec::new();
+        let rounds = 2 + rng.below(8);
+        for _ in 0..rounds {
+            let nested = rng.chance(0.3);
+            ops.push(op(K::Pin, 0, 0, 0, 0));
+            if nested {
+                ops.push(op(K::Pin, 1, 0, 0, 0));
+            }
+            for _ in 0..rng.below(5) {
+                ops.push(op(K::Defer, 0, shape(&mut rng), 0, 0));
+            }
+            match rng.below(6) {
+                0 => ops.push(op(K::Flush, 0, 0, 0, 0)),
+                1 => ops.push(op(K::TryAdvance, 0, 0, 0, 0)),
+                2 => ops.push(op(K::Collect, 0, 0, 0, 0)),
+                3 => ops.push(op(K::Reactivate, 0, 0, 0, 0)),
+                _ => {}
+            }
+            if rng.chance(0.3) {
+                ops.push(op(K::New, 0, NONE_SLOT, 0, 0));
+                ops.push(op(K::DropRc, 0, 0, 0, 0));
+            }
+            if nested {
+                if rng.chance(0.5) {
+                    ops.push(op(K::Unpin, 0, 0, 0, 0));
+                    ops.push(op(K::Unpin, 1, 0, 0, 0));
+                } else {
+                    ops.push(op(K::Unpin, 1, 0, 0, 0));
+                    ops.push(op(K::Unpin, 0, 0, 0, 0));
+                }
+            } else {
+                ops.push(op(K::Unpin, 0, 0, 0, 0));
+            }
+        }
+        let mut t = ThreadProg::new(0, ops);
+        t.name = "advancer".into();
+        threads.push(t);
+    }
+    for i in 0..nshort {
+        let mut ops = vec![op(K::Pin, 0, 0, 0, 0)];
+        for _ in 0..rng.below(4) {
+            ops.push(op(K::Defer, 0, shape(&mut rng), 0, 0));
+        }
+        if rng.chance(0.3) {
+            ops.push(op(K::Flush, 0, 0, 0, 0));
+        }
+        if rng.chance(0.7) {
+            ops.push(op(K::Unpin, 0, 0, 0, 0));
+        }
+        // some short-lived threads start later (second wave of registrations)
+        let mut t = ThreadProg::new(if i >= 2 && rng.chance(0.5) { 1 } else { 0 }, ops);
+        t.name = "short-lived".into();
+        if rng.chance(0.2) {
+            t.tls_mode = 1 + rng.below(2) as u32;
+            t.tls_ops = crate::gen::gen_ops(&mut rng, Profile::Ebr, 3, 1, 1);
+        }
+        threads.push(t);
+    }
+    if threads.iter().any(|t| t.phase == 1) {
+        let mut t = ThreadProg::new(1, crate::gen::ticker_ops(2 + rng.below(6) as usize));
+        t.name = "ticker".into();
+        threads.push(t);
+    }
+    if let Some(s) = cfg.stall.as_mut() {
+        s.victim = rng.below(nlong as u64) as u32;
+    }
+    RunDesc { prop: prop.to_string(), family: "ebr-churn".into(), seed, cfg, threads, params: J::Null, schedule: None, buggify_script: None }
 }
